@@ -17,6 +17,8 @@ import (
 
 var t0 = time.Unix(1_600_000_000, 0)
 
+const ttlConc = 3 * time.Hour
+
 // ---- reference model: a list of (value, insert time), spec-level ----------
 
 type mEntry struct {
